@@ -102,7 +102,7 @@ func Time() *rapid.Generator[model.TimeSpec] {
 
 // ---- predicate ----
 
-var predIDPool = []string{"p", "q", "knows", "follows", "_subject", "a\"b", "\"@[", "x\"@[]", "]", "[", "@", "\\", "a\\", "\\\"", "a\\\"b", "\\\\\"", "say \\\\\"hi\\\\\" twice", "\\\\", "é", "世界", "'", "p,q", "?x", "<n>", "\"^^type:text"}
+var predIDPool = []string{"p", "q", "knows", "follows", "_subject", "a\"b", "\"@[", "x\"@[]", "]", "[", "@", "\\", "a\\", "\\\"", "a\\\"b", "\\\\\"", "say \\\\\"hi\\\\\" twice", "\\\\", "é", "世界", "'", "p,q", "?x", "<n>", "\"^^type:text", "see\"^^type:text,p.3", "x\"^^type:int64", "back\\slash", "soft\u00adhyphen", "zero\u200bwidth", "bell\a"}
 
 // PredID draws a non-empty valid-UTF-8 id without whitespace.
 func PredID() *rapid.Generator[string] {
@@ -135,7 +135,7 @@ func Pred() *rapid.Generator[model.PredSpec] {
 
 var intPool = []int64{0, 1, -1, 2, 10, -10, 1 << 55, -(1 << 55), 1<<55 - 1, -(1<<55 - 1), math.MaxInt64, math.MinInt64, 1 << 62, 1<<63 - 2, 116, 1702195828}
 var floatPool = []float64{0, math.Copysign(0, -1), 1, -1, 0.5, 1.5, -2.25, math.Inf(1), math.Inf(-1), math.SmallestNonzeroFloat64, 1e300, -1e300, 1.0000001, 1.0000002, 1e33, math.MaxFloat64, 2.2250738585072014e-308, 1e-7}
-var textPool = []string{"", "a", "true", "1", "1.0", "x y", "100% sure", "%d", "a%%b", "%s%v%!", "%", "[1] \"A temporal graph store\", 2015", "x] /y", "a> \"b", "] \"", "see [2]\t/t<a>", "\"", "a\"b", "\"^^type:text", "\"^^type:int64", "x\"^^type:bool", "\"@[", "]", "[1 2]", "\\", "a\\", "é", "世界", " lead", "trail ", "a\tb", "<x>", "/t<a>", "_:b", "?x", "NaN"}
+var textPool = []string{"", "a", "true", "1", "1.0", "x y", "100% sure", "%d", "a%%b", "%s%v%!", "%", "[1] \"A temporal graph store\", 2015", "x] /y", "a> \"b", "] \"", "see [2]\t/t<a>", "\"", "a\"b", "\"^^type:text", "\"^^type:int64", "x\"^^type:bool", "\"@[", "]", "[1 2]", "\\", "a\\", "\\\"", "a\\\"b", "\\\\\"", "say \\\\\"hi\\\\\" twice", "\\\\", "é", "世界", " lead", "trail ", "a\tb", "<x>", "/t<a>", "_:b", "?x", "NaN"}
 var blobPool = [][]byte{{}, {0}, {116, 114, 117, 101}, {255}, {1, 2, 3}, {34, 94, 94}, {32}}
 
 // Lit draws a literal spec. NaN is produced only when allowNaN is set.
